@@ -230,7 +230,7 @@ def check_scan(case) -> Outcome:
 
 def undecoded_docs():
     """documents made of plain indicators only (nothing decodable): flatten must be the identity"""
-    frag = st.one_of(S.frag_net(), S.frag_path(), S.frag_straddle(), S.frag_straddle(), st.sampled_from(S.KEYWORDS), S.neutral(1, 3), st.sampled_from([b"CreateObject(x)", b"cmd /c dir", b"(", b")", b"'", b'"']))
+    frag = st.one_of(S.frag_net(), S.frag_path(), S.frag_straddle(), S.frag_straddle(), S.frag_nested_kw(), S.frag_nested_kw(), st.sampled_from(S.KEYWORDS), S.neutral(1, 3), st.sampled_from([b"CreateObject(x)", b"cmd /c dir", b"(", b")", b"'", b'"']))
     return st.lists(st.tuples(frag, st.sampled_from([b" ", b"\n", b"; "])).map(b"".join), min_size=1, max_size=6).map(b"".join)
 
 
